@@ -8,6 +8,8 @@ Open Scope Z_scope.
 Fixpoint lookup (l : list (key * Z)) (k : key) : Z :=
   match l with [] => 0 | (k', v) :: r => if key_eqb k' k then v else lookup r k end.
 Definition memZ (x : Z) (l : list Z) : bool := existsb (Z.eqb x) l.
+Fixpoint lookup2k (l : list (Z * Z)) (t : Z) : Z :=
+  match l with [] => 0 | (t', v) :: r => if t' =? t then v else lookup2k r t end.
 
 Fixpoint list_eqb {A} (eqb : A -> A -> bool) (a b : list A) : bool :=
   match a, b with
@@ -24,6 +26,8 @@ Record bc_case := {
   bc_registered : list Z; bc_enabled : list Z;
   bc_timeout_ok : bool;
   bc_msg : bcmsg;
+  bc_kinds : list (Z * Z);                      (* token id -> kind (default 0) *)
+  bc_value : Z; bc_value_from : Z;              (* msg.Value and who pays it: the callback sender, or the claim's sender for send-call-to *)
   bc_call_fails : bool; bc_call_writes : Z;     (* behaviour of the target contract, known by construction *)
   bc_evm0 : Z;
   (* observed on the real app after ExecuteClaim run as a transaction *)
@@ -33,9 +37,10 @@ Record bc_case := {
   bc_obs_pending : bool;
   bc_obs_evm : Z }.
 
-Definition mk_bc_case pre reg en tmo nonce sender refund to is_contract sendcallto tokens call_fails call_writes evm0
+Definition mk_bc_case pre reg en kinds tmo nonce sender refund to is_contract sendcallto tokens value value_from call_fails call_writes evm0
            obs_ok obs_bal obs_newcalls obs_pending obs_evm : bc_case :=
-  {| bc_pre := pre; bc_registered := reg; bc_enabled := en; bc_timeout_ok := tmo;
+  {| bc_pre := pre; bc_registered := reg; bc_enabled := en; bc_kinds := kinds; bc_value := value; bc_value_from := value_from;
+     bc_timeout_ok := tmo;
      bc_msg := {| m_nonce := nonce; m_sender := sender; m_refund := refund; m_to := to;
                   m_to_is_contract := is_contract; m_sendcallto := sendcallto; m_tokens := tokens |};
      bc_call_fails := call_fails; bc_call_writes := call_writes; bc_evm0 := evm0;
@@ -47,10 +52,19 @@ Definition bc_init (c : bc_case) : bst :=
      registered := fun t => memZ t (bc_registered c);
      enabled := fun t => memZ t (bc_enabled c);
      pendingc := fun n => n =? m_nonce (bc_msg c);
-     outcalls := []; next_id := 1; timeout_ok := bc_timeout_ok c; evmst := bc_evm0 c |}.
+     outcalls := []; next_id := 1; timeout_ok := bc_timeout_ok c; evmst := bc_evm0 c;
+     tkind := fun t => lookup2k (bc_kinds c) t |}.
 
+Definition FxTok : Z := -1.   (* the FX bridge token; its "base coin" is the native coin *)
+
+(* CallEVM(ctx, from, to, value, …): the EVM moves msg.Value from the caller to the callee first (insufficient balance: the
+   call is refused), then runs the callee; a failing callee reverts everything the call did *)
 Definition bc_call (c : bc_case) : bst -> result bst :=
-  fun s => if bc_call_fails c then Err (set_evmst s (bc_call_writes c)) else Ok (set_evmst s (bc_call_writes c)).
+  fun s =>
+    let v := bc_value c in
+    if bal s (bc_value_from c, Base, FxTok) <? v then Err s else
+    let s1 := set_bal s (ladd (ladd (bal s) (bc_value_from c, Base, FxTok) (- v)) (m_to (bc_msg c), Base, FxTok) v) in
+    if bc_call_fails c then Err (set_evmst s1 (bc_call_writes c)) else Ok (set_evmst s1 (bc_call_writes c)).
 
 Definition bc_mismatch (c : bc_case) : bool :=
   let (post, ok) := execute_claim_tx (bc_call c) (bc_msg c) (bc_init c) in
